@@ -23,7 +23,7 @@ RULE = ("R-score notes, containers (+duration), bars, tracks and compositions: 3
         "(LilyPond). LilyPond text is decoded by an own reader of the emitted subset, MusicXML by xml.etree, and compared entry by "
         "entry with the description. Non-trivial: a score with a dotted or tuplet value or a chord, a key/meter change between bars, "
         "or metadata containing a markup character."
-        ' Also: enharmonic twin and repeated bars, tracks sharing one instrument object, and a second export of the same objects must give the same text and leave the music unchanged.')
+        ' Also: enharmonic twin and repeated bars, tracks sharing one instrument object, and a second export of the same objects must give the same text and leave the music unchanged; chords that are not in ascending order (after item assignment), entries held in a user subclass of NoteContainer, MIDI instruments of a user subclass.')
 ASSUMPTIONS = ["LilyPond: a \\times 1/1 group is the identity; whitespace is not compared; header strings contain no \" or \\",
                "MusicXML: part ids only need to be unique and consistent; encoding date, clef and time-modification are not compared; "
                "an empty title/author may be omitted", "the unbounded (0,0) meter is not exported"]
@@ -339,7 +339,7 @@ MX_TEXT = st.builds(lambda a, m, z: (a + m + z).strip() or "x", st.sampled_from(
 def _cfg(text, **kw):
     base = dict(groups=SG.plain_groups(bases=ALLB, max_dots=4, tuplet_bases=ALLB), meters=METERS, octaves=list(range(0, 9)), max_pitch=200,
                 min_pitch=-20, max_bars=3, max_groups=6, max_tracks=3, text=text, partial_last=True, rest_p=4, empty_containers=True,
-                instruments=["none", "generic", "midi"], twin_p=4, share_instruments=True)
+                instruments=["none", "generic", "midi"], twin_p=4, share_instruments=True, subclass_p=8, unsorted_p=5)
     base.update(kw)
     return SG.Cfg(**base)
 
